@@ -66,6 +66,7 @@ def draw_smc_scenario(
     cut_prob=0.25,
     offset_prob=0.0,
     reuse_prob=0.0,
+    int_bounds_prob=0.0,
 ):
     rng = rng_from(seed)
     kind = pick(rng, list(kinds))
@@ -141,6 +142,18 @@ def draw_smc_scenario(
         if r2.uniform() < offset_prob:
             scn["target"]["c"] = float(pick(r2, [-2800.0, -900.0, 1500.0, 4000.0]))
             scn["_offset"] = True
+    if int_bounds_prob:
+        # prior bounds written as integer literals (non-periodic dimensions): widen each bound outward to the next integer
+        r4 = rng_from((int(seed) ^ 0x1B0D5) % (1 << 62))
+        if r4.uniform() < int_bounds_prob:
+            import math as _math
+
+            tg = scn["target"]
+            for j in range(tg["dims"]):
+                if tg["factor"][j] != "vm":
+                    tg["lower"][j] = int(_math.floor(tg["lower"][j]))
+                    tg["upper"][j] = int(_math.ceil(tg["upper"][j]))
+            scn["_int_bounds"] = True
     if reuse_prob and scn["checkpoint"]["mode"] == "none" and sampler == "smc":
         # ONE sampler object serves two fresh sample() calls (Aspire.init_sampler, then sample twice): whatever the first
         # call leaves on the object must not leak into what the second one records and returns
@@ -148,10 +161,15 @@ def draw_smc_scenario(
         if r3.uniform() < reuse_prob:
             s1, _m1 = draw_schedule(r3, allow_cap=allow_cap)
             s1["sampler_kwargs"] = {"n_steps": 1}
-            scn["api"] = "sampler"
-            scn["rng_route"] = "sample" if scn["rng_route"] != "none" else "none"
-            scn["first_call"] = s1
-            scn["_reused_sampler"] = True
+            if r3.integers(2) == 0:
+                scn["api"] = "sampler"
+                scn["rng_route"] = "sample" if scn["rng_route"] != "none" else "none"
+                scn["first_call"] = s1
+                scn["_reused_sampler"] = True
+            else:
+                # ... or ONE Aspire instance serves two sample_posterior calls with the same sampler type
+                scn["aspire_first_call"] = s1
+                scn["_reused_aspire"] = True
     scn["_schedule_mode"] = mode
     scn["_precond"] = pc
     return scn
